@@ -98,12 +98,16 @@ func init() {
 			"the input||updated layout written by buildSet is read back as the upper half by both readers; the old||new layout of UPDATE rows agrees between updateSourceIter (writer), updateIter (reader, RowUpdater.Update(old,new)) and the OLD/NEW scope that getTriggerLogic builds for every event; " +
 			"planbuilder and analyzer offer the same aliases (new / old) per event; the rows a DML iterator returns to an AFTER executor have the width of that event's scope; " +
 			"(T3) placement: for every DML node kind applyTrigger wraps the node's row source for BEFORE and the node itself for AFTER, the two analyzer switches (event detection, placement) cover exactly the node kinds whose build function opens a table editor and agree on the event; every editor operation a DML iterator performs is covered by the event the node is matched to; a trigger is selected only under a conjunction testing its table and its event, and every placement arm tests the trigger's event and table against the node it is about to wrap (a subtree can hold DML nodes of several kinds and tables, e.g. the branches of an IF in a trigger body); the roles of the executor's two children (child = first constructor parameter, logic = second; field, Children() index and accessor read from plan) are the roles buildTriggerExecutor, the selector of the placing transform (no descent into the logic of an executor placed earlier: otherwise the next trigger is also placed on DML inside that body) and the prepend selector use; " +
-			"(T4) order: applyTriggers applies the triggers in the slice produced by the ordering function; OrderTriggers inserts a PRECEDES trigger at, a FOLLOWS trigger right after, the referenced one and splits the *reordered* slice; exactly the AFTER half is reversed before application (each application lands next to the DML node, so BEFORE triggers run in application order and AFTER triggers in reverse).",
-		NotCovered: "the values an arbitrary trigger body computes, reads or stores (expression evaluation, GetField index assignment by the analyzer, prepend-node execution); which plan shapes shouldUseLogicResult selects (it looks for SET NEW.x in the analysed body); run-time iteration counts beyond the path shape (e.g. a child that yields a row twice); " +
+			"(T4) order: applyTriggers applies the triggers in the slice produced by the ordering function; OrderTriggers inserts a PRECEDES trigger at, a FOLLOWS trigger right after, the referenced one and splits the *reordered* slice; exactly the AFTER half is reversed before application (each application lands next to the DML node, so BEFORE triggers run in application order and AFTER triggers in reverse). " +
+			"(T6) a trigger is found whatever the spelling of its table: in every analyzer function that handles trigger definitions, a string equality with one visibly lower-cased operand has the other operand lower-cased too (or constant) - this covers the guard that keeps DELETE from being rewritten to TRUNCATE when the table has a DELETE trigger.",
+		NotCovered: "case-insensitive matching of names that no function folds at all (T6 only reports a comparison that folds one side); the values an arbitrary trigger body computes, reads or stores (expression evaluation, GetField index assignment by the analyzer, prepend-node execution); which plan shapes shouldUseLogicResult selects (it looks for SET NEW.x in the analysed body); run-time iteration counts beyond the path shape (e.g. a child that yields a row twice); " +
 			"rollback of the trigger's and the statement's effects through savepoints: AddTriggerRollbackIter logs and ignores CreateSavepoint errors and the in-memory session does not implement savepoints, so that half is not claimed; DELETE with explicit targets / multi-table trigger sets (refused by applyTrigger); foreign-key cascades and TRUNCATE do not fire triggers (as in MySQL) and are outside the tables checked here",
-		Run: func(c *Ctx) { runC23(c, real, false) },
+		Run: func(c *Ctx) { runC23(c, real, false); runC23Fold(c, []string{"sql/analyzer"}, 4, c23UsesTriggerDefs("sql/plan", "CreateTrigger")) },
 		Fixture: func(c *Ctx, fx2 *Prog) {
 			expectFixture(c, fx2, "c23: planted defects in the fixture executors, layouts, placement and ordering must be reported", c23FixtureWant, func(fc *Ctx) { runC23(fc, fx, true) })
+			expectFixture(c, fx2, "c23 fold: a trigger's table name compared as written with a lower-cased target name",
+				[]string{"C23-T6:vchk/testdata/c23/analyzer.hasDeleteTriggerBad/nameOf(tr) == name"},
+				func(fc *Ctx) { runC23Fold(fc, []string{"testdata/c23/analyzer"}, 0, c23UsesTriggerDefs("testdata/c23/plan", "CreateTrigger")) })
 		},
 		FixturePkgs: []string{"./testdata/c23/analyzer", "./testdata/c23/rowexec", "./testdata/c23/planbuilder"},
 	})
